@@ -66,6 +66,12 @@ def cases(tier, seed):
                         for nonherm in ((False, True) if basis == "orth" else (True,)):
                             out.append(dict(solver="direct", n=n, blocks=list(blocks), deg=deg, basis=basis, dtypes=dt,
                                             nonhermitian=nonherm, seed=seed))
+    # non-normal structure: (a) H_0 Hermitian on the explicit levels but non-normal on the implicit complement,
+    # explicit levels given as plain bases; (b) real non-symmetric H_0 whose explicit levels are a complex-conjugate pair
+    for kindp in ("nonnormal-complement", "real-nonsymmetric"):
+        for blocks in ((1,), (2,), (1, 1)) if kindp == "nonnormal-complement" else ((2,), (2, 1)):
+            for dt in ("rr", "rc"):
+                out.append(dict(solver="direct", n=6, blocks=list(blocks), deg=kindp, basis="special", dtypes=dt, nonhermitian=True, seed=seed))
     # --- direct Green's function
     for n in (5,):
         for rank in (0, 1, 2, 3):
@@ -228,6 +234,34 @@ def make_problem(n, blocks, deg, basis, dtypes, seed):
     return h0, E, Rm, Lm
 
 
+def special_problem(n, blocks, kind, seed):
+    rng = np.random.default_rng([seed, n, len(blocks), 404])
+    nexp = sum(blocks)
+    if kind == "nonnormal-complement":
+        Eexp = np.array([0.0, 1.0, 3.0][:nexp])
+        Mc = rng.normal(size=(n - nexp, n - nexp)) + 1j * rng.normal(size=(n - nexp, n - nexp)) + 10 * np.eye(n - nexp)
+        A = rng.normal(size=(n, n)) + 1j * rng.normal(size=(n, n))
+        Q, _ = np.linalg.qr(A)
+        core = np.zeros((n, n), dtype=complex)
+        core[:nexp, :nexp] = np.diag(Eexp)
+        core[nexp:, nexp:] = Mc
+        h0 = Q @ core @ Q.conj().T
+        E = np.concatenate([Eexp, np.zeros(n - nexp)])
+        return h0, E, Q, Q, True  # plain bases
+    # real non-symmetric H_0: first explicit block = a complex-conjugate pair
+    B = np.zeros((n, n))
+    B[0, 0], B[0, 1], B[1, 0], B[1, 1] = 1.0, 2.0, -2.0, 1.0  # eigenvalues 1 +- 2i
+    for i_ in range(2, n):
+        B[i_, i_] = 4.0 + 3 * i_
+    Smat = rng.normal(size=(n, n)) + 3 * np.eye(n)
+    h0 = Smat @ B @ np.linalg.inv(Smat)
+    w, R = np.linalg.eig(h0)
+    order = np.argsort(-np.abs(w.imag) * 100 + w.real)  # the complex pair first, then ascending real parts
+    w, R = w[order], R[:, order]
+    L = np.linalg.inv(R).conj().T
+    return h0, w, R, L, False
+
+
 def run_direct(case):
     from scipy import sparse
 
@@ -235,10 +269,19 @@ def run_direct(case):
     from pymablock.series import zero
 
     n, blocks = case["n"], case["blocks"]
-    h0, E, Rm, Lm = make_problem(n, blocks, case["deg"], case["basis"], case["dtypes"], case["seed"])
     nexp = sum(blocks)
     off = [0] + list(np.cumsum(blocks))
-    if case["basis"] == "orth":
+    if case["basis"] == "special":
+        h0, E, Rm, Lm, plain = special_problem(n, blocks, case["deg"], case["seed"])
+        if plain:
+            eigvecs = [Rm[:, off[b] : off[b + 1]] for b in range(len(blocks))]
+        else:
+            eigvecs = [(Rm[:, off[b] : off[b + 1]], Lm[:, off[b] : off[b + 1]]) for b in range(len(blocks))]
+    else:
+        h0, E, Rm, Lm = make_problem(n, blocks, case["deg"], case["basis"], case["dtypes"], case["seed"])
+    if case["basis"] == "special":
+        pass
+    elif case["basis"] == "orth":
         eigvecs = [Rm[:, off[b] : off[b + 1]] for b in range(len(blocks))]
     else:
         eigvecs = [(Rm[:, off[b] : off[b + 1]], Lm[:, off[b] : off[b + 1]]) for b in range(len(blocks))]
